@@ -69,7 +69,7 @@ class C09(C01):
         return (tuple(c["events"]), tuple(c["options"]))
 
     def match_known(self, entry, case, failed):
-        # D22: reply to a requester with source port 0 cannot be sent; the catch-all logs the OSError
+        # no known (unrepaired) finding of the request port (D22 was repaired by 7078de3)
         import c09_port
         return c09_port.match_known(entry, case, failed)
 
